@@ -582,4 +582,91 @@ theorem body_eval (o : Oracles) (ao : AggOracles) (db : Db) (env : Env) (table :
     simp only [List.map_map, ← List.map_take]
     exact List.map_congr_left (fun t ht => hproj t (List.mem_of_mem_take ht))
 
+/-! ### the statement `TracesDataPlanner` builds around `index_grouped` -/
+def tracesTableOf (c : Ctx) : String := if c.isCluster then c.tracesDistTable else c.tracesTable
+
+theorem tracesData_eq (c : Ctx) (main : Sel) :
+    tracesData c main = (tracesBody (tracesTableOf c) none).with_
+      [(.named "index_grouped", main), (.named "trace_ids", traceIdsSel), (.named "trace_span_ids", traceSpanIdsSel),
+       (.named "traces_info", tracesInfoSel c)] := rfl
+
+def limOf (c : Ctx) : Option Expr := if c.limit = 0 then none else some (.int c.limit)
+
+theorem limOf_ok (c : Ctx) : limOf c = none ∨ ∃ n, limOf c = some (.int n) := by
+  unfold limOf; split
+  · exact Or.inl rfl
+  · exact Or.inr ⟨_, rfl⟩
+
+/-- the WITH list and the body of the whole statement, for an `index_grouped` select that brings at most the
+    sub-query `index_search` with it -/
+def NotReserved (a : Alias) : Prop :=
+  a ≠ .named "index_grouped" ∧ a ≠ .named "trace_ids" ∧ a ≠ .named "trace_span_ids" ∧ a ≠ .named "traces_info"
+
+theorem plan_shape (c : Ctx) (main : Sel)
+    (hW : main.withs = [] ∨ ∃ a s, main.withs = [(a, s)] ∧ NotReserved a) :
+    ∃ ws, indexLimit c (tracesData c main) = (tracesBody (tracesTableOf c) (limOf c)).setWiths ws ∧
+      ws = main.withs ++ [(.named "index_grouped", main), (.named "trace_ids", traceIdsSel), (.named "trace_span_ids", traceSpanIdsSel),
+        (.named "traces_info", tracesInfoSel c)] := by
+  refine ⟨_, ?_, rfl⟩
+  rw [tracesData_eq]
+  have hwith : (tracesBody (tracesTableOf c) none).with_
+      [(.named "index_grouped", main), (.named "trace_ids", traceIdsSel), (.named "trace_span_ids", traceSpanIdsSel),
+       (.named "traces_info", tracesInfoSel c)] =
+      (tracesBody (tracesTableOf c) none).setWiths (main.withs ++ [(.named "index_grouped", main), (.named "trace_ids", traceIdsSel),
+        (.named "trace_span_ids", traceSpanIdsSel), (.named "traces_info", tracesInfoSel c)]) := by
+    have w1 : traceIdsSel.withs = [] := rfl
+    have w2 : traceSpanIdsSel.withs = [] := rfl
+    have w3 : (tracesInfoSel c).withs = [] := rfl
+    rcases hW with h0 | ⟨a, s, h0, n1, n2, n3, n4⟩
+    · simp (config := { decide := true }) [Sel.with_, addWith1, hasAlias, h0, w1, w2, w3]
+    · simp (config := { decide := true }) [Sel.with_, addWith1, hasAlias, h0, w1, w2, w3, n1, n2, n3, n4]
+  rw [hwith]
+  unfold indexLimit limOf
+  split <;> rfl
+
+theorem evalBodyJ_setWiths (o : Oracles) (ao : AggOracles) (db : Db) (env : Env) (s : Sel) (ws : List (Alias × Sel)) :
+    evalBodyJ o ao db env (s.setWiths ws) = evalBodyJ o ao db env s := by
+  obtain ⟨w, d, c, f, j, p, wh, g, h, ob, l⟩ := s; rfl
+
+theorem selWiths_setWiths (s : Sel) (ws : List (Alias × Sel)) : selWiths (s.setWiths ws) = ws := by
+  obtain ⟨w, d, c, f, j, p, wh, g, h, ob, l⟩ := s; rfl
+
+theorem usesJ_tracesBody (table : String) (lim : Option Expr) (ws : List (Alias × Sel)) :
+    usesJ ((tracesBody table lim).setWiths ws) = true := by
+  simp [tracesBody, Sel.setWiths, usesJ]
+
+theorem evalWithsJ_append (o : Oracles) (ao : AggOracles) (db : Db) (env : Env) (ws vs : List (Alias × Sel)) :
+    evalWithsJ o ao db env (ws ++ vs) = evalWithsJ o ao db (evalWithsJ o ao db env ws) vs := by
+  induction ws generalizing env with
+  | nil => simp [evalWithsJ]
+  | cons w ws ih => obtain ⟨a, s⟩ := w; simp [evalWithsJ, ih]
+
+/-- **the whole statement given `index_grouped`**: if the sub-queries in front of `index_grouped` evaluate to `env1`
+    and `index_grouped` in that scope to the trace rows `T`, the rows of the statement are `assemble` of the pairs of `T` -/
+theorem stmt_eval (o : Oracles) (ao : AggOracles) (db : Db) (c : Ctx) (main : Sel) (S : List SpanRow)
+    (hdb : db (tracesTableOf c) = S.map SpanRow.row) (hdb2 : db c.tracesTable = S.map SpanRow.row)
+    (hW : main.withs = [] ∨ ∃ a s, main.withs = [(a, s)] ∧ NotReserved a)
+    (T : Table) (hT : TraceShaped T)
+    (hmain : evalCteJ o ao db (evalWithsJ o ao db [] main.withs) main = T) :
+    (evalStmtJ o ao db (indexLimit c (tracesData c main))).map (fun r => r.take 5) =
+      (assemble (pairsOf T) S (limNat (limOf c))).map TraceOut.row := by
+  obtain ⟨ws, hS, hws⟩ := plan_shape c main hW
+  rw [hS]
+  unfold evalStmtJ
+  rw [selWiths_setWiths, evalCteJ, usesJ_tracesBody, if_pos rfl, evalBodyJ_setWiths, hws, evalWithsJ_append]
+  generalize evalWithsJ o ao db [] main.withs = env1 at hmain ⊢
+  simp only [evalWithsJ, hmain]
+  have e1 := traceIds_eval o ao db ((.named "index_grouped", T) :: env1) T (by rfl) hT
+  rw [e1]
+  have e2 := traceSpanIds_eval o ao db ((.named "trace_ids", (pairsOf T).map (fun k => [("trace_id", Val.str k.1)])) :: (.named "index_grouped", T) :: env1) T
+    (by rfl) hT
+  rw [e2]
+  have e3 := traceInfo_eval o ao db
+    ((.named "trace_span_ids", (pairsOf T).flatMap (fun k => k.2.map (fun v => [("trace_id", Val.str k.1), ("span_id", Val.str v)]))) ::
+      (.named "trace_ids", (pairsOf T).map (fun k => [("trace_id", Val.str k.1)])) :: (.named "index_grouped", T) :: env1) c S (pairsOf T) hdb2
+    (by rfl)
+  rw [e3]
+  exact body_eval o ao db _ (tracesTableOf c) (pairsOf T) S hdb
+    ⟨by rfl, by rfl, by rfl⟩ (limOf c) (limOf_ok c)
+
 end Qryn.TraceQL
